@@ -345,7 +345,12 @@ def parse_row(row: bytes, intern, skin=None):
         tag = "raw"
     else:
         tag = "styled"
-    fs = [int(m) for m in _FILE_RE.findall(text)]
+    if skin and skin.get("names"):
+        # file ids whose (base) name occurs in the row, in order of appearance
+        occ = sorted((text.find(nm), fid) for fid, nm in skin["names"].items() if nm in text)
+        fs = [fid for pos, fid in occ]
+    else:
+        fs = [int(m) for m in _FILE_RE.findall(text)]
     # ids whose full display path (per the skin) occurs in the row, in order of appearance
     fp = []
     if skin is not None:
@@ -472,6 +477,18 @@ def parse_unified_numbers(row: bytes):
 
 
 DEFAULT_SYMS = {"left": "↵", "right": "↴", "prefix": "…", "trunc": "→"}
+
+
+def cross_numbers(row: bytes, half: int):
+    """Side-by-side row under the number formats '{nm}:{np}|' in both panels: (left old, left new, right old, right new),
+    0 = blank.  The right panel begins at column `half`."""
+    cells, width = kinded_cells(row)
+    out = []
+    for part in ([c for c in cells if c[3] < half], [c for c in cells if c[3] >= half]):
+        g = "".join(x[0] for x in part if x[1] in LN_KINDS)
+        m = re.match(r"^\s*(\d*)\s*:\s*(\d*)\s*\|", g)
+        out += [int(m.group(1) or 0), int(m.group(2) or 0)] if m else [-1, -1]
+    return tuple(out)
 
 
 def parse_sbs_row(row: bytes, syms=None):
